@@ -37,6 +37,24 @@ def apply_ops(xf, model, ops):
         kind = op[0]
         if kind == "seek":
             _, off, whence = op
+            before = model.tell()
+            target = off if whence == 0 else before + off if whence == 1 else len(model.getbuffer()) + off
+            if target < 0:
+                # before the start of the decoded bytes: a file either refuses (ValueError / OSError, position unchanged) or
+                # - io.BytesIO for relative seeks - ends up at position 0; never at a negative position, never in the stub
+                try:
+                    got_pos = xf.seek(off, whence)
+                except (ValueError, OSError):
+                    got_pos = None
+                if got_pos is None:
+                    model.seek(before)
+                    if xf.tell() != before:
+                        return "history.model", f"op#{i} seek({off}, {whence}) to a position before the start was refused but moved the position to {xf.tell()}", i
+                elif got_pos == 0 and whence != 0:
+                    model.seek(0)
+                else:
+                    return "history.model", f"op#{i} seek({off}, {whence}) to a position before the start of the decoded bytes returned {got_pos}", i
+                continue
             want_pos = model.seek(off, whence)
             got_pos = xf.seek(off, whence)
             if got_pos != want_pos:
@@ -120,7 +138,13 @@ def check_case(case, ctx):
                 ctx.violation("detect.offset", f"stage not detected (marker={case['marker']} size_ok={case['size_ok']} stub={len(stub)} prepend={case['prepend']})", case)
                 return
             if xf.nonce_offset != off:
-                ctx.violation("detect.offset", f"nonce_offset {xf.nonce_offset}, encoded region starts at {off}", case)
+                # known finding: a stage that only its end-of-stub marker locates (size field does not confirm it) and whose
+                # stub holds an earlier ff ff ff - the earlier candidate decodes to the same image further in, passes the
+                # MZ test and wins.  Attributed by mechanism: the reported offset is one of those earlier marker positions.
+                size_confirmed = case["size_ok"] and not case["trailing"]
+                earlier = {i + 3 for i in range(len(stub) - 2) if stub[i : i + 3] == b"\xff\xff\xff" and i + 3 < off}
+                key = "xordecode-earlier-marker-candidate" if (case["marker"] and not size_confirmed and xf.nonce_offset in earlier) else None
+                ctx.violation("detect.offset", f"nonce_offset {xf.nonce_offset}, encoded region starts at {off}", case, key=key)
                 return
             xf.seek(0)
             dec = xf.read()
@@ -173,17 +197,17 @@ def gen_ops(rng, plen, nops):
         if r < 0.3:
             w = rng.choice([0, 0, 1, 2])
             if w == 0:
-                t = rng.choice([0, plen, max(plen - 1, 0), rng.randrange(0, plen + 1), rng.randrange(0, plen + 1), plen + rng.randrange(1, 9)])
+                t = rng.choice([0, plen, max(plen - 1, 0), rng.randrange(0, plen + 1), rng.randrange(0, plen + 1), plen + rng.randrange(1, 9), -1, -rng.randrange(1, 60)])
                 ops.append(("seek", t, 0))
-                pos = t
+                pos = t if t >= 0 else pos
             elif w == 1:
-                t = rng.choice([rng.randrange(0, plen + 1), rng.randrange(0, plen + 1), plen + rng.randrange(1, 5), pos])
+                t = rng.choice([rng.randrange(0, plen + 1), rng.randrange(0, plen + 1), plen + rng.randrange(1, 5), pos, -1, -rng.randrange(1, 5000)])
                 ops.append(("seek", t - pos, 1))
-                pos = t
+                pos = max(t, 0)
             else:
-                t = rng.choice([plen, rng.randrange(0, plen + 1), plen + rng.randrange(1, 5)])
+                t = rng.choice([plen, rng.randrange(0, plen + 1), plen + rng.randrange(1, 5), -1, -rng.randrange(1, 5000)])
                 ops.append(("seek", t - plen, 2))
-                pos = t
+                pos = max(t, 0)
         elif r < 0.85:
             n = rng.choice([0, 1, 2, 3, 4, 5, 6, 7, 8, 9, 1, 3, rng.randrange(1, 40), plen + 5, 8192, -1, None])
             ops.append(("read", n))
@@ -261,6 +285,12 @@ def run_shard(shard, ctx):
                     b[-1:] = b"\xff"  # stub ending in ff: the marker region becomes ff ff ff ff
                 if not marker and b[-3:] == b"\xff\xff\xff":
                     b[-1] = 0x41  # without a marker the stub must not end in one by accident
+                stub = bytes(b)
+            elif marker and rng.random() < 0.3 and len(stub) >= 8:
+                # stage located by its marker only, stub with an inner ff ff ff (e.g. a backward call e8 xx ff ff ff)
+                b = bytearray(stub)
+                pos = rng.randrange(0, len(b) - 5)
+                b[pos : pos + 3] = b"\xff\xff\xff"
                 stub = bytes(b)
             check_case({"op": "detect", "plain": plain, "nonce": rng.randbytes(4), "stub": stub, "marker": marker,
                         "size_ok": size_ok, "trailing": trailing, "prepend": prepend}, ctx)
